@@ -41,6 +41,23 @@ NumA2(ks, X) == LET m == Len(ks)  pa == PA(ks, X)  qa == QA(ks, X) IN
 \* safe to evaluate in 32 bits
 Fits(ks, X) == Abs(PA(ks, X)) <= 8000 /\ Abs(QA(ks, X)) <= 8000
 
+\* ---- the same closed form on the twice finer grid cos(theta) = Y/16 (line spectral cosines still k_i/8 = 2 k_i/16):
+\* |A|^2 = NumA2h / (2^(m+1) 4^(m+2)).  Used to state the "stable range" of C01 (spectral shape within +-4 nepers of the gain)
+\* for filter orders 4 and 5, where every intermediate value stays below 2^31.
+RECURSIVE ProdSelH(_,_,_,_)
+ProdSelH(ks, Y, i, par) == IF i > Len(ks) THEN 1 ELSE (IF i % 2 = par THEN Y - 2 * ks[i] ELSE 1) * ProdSelH(ks, Y, i + 1, par)
+NumA2h(ks, Y) == LET m == Len(ks)  pa == ProdSelH(ks, Y, 1, 1)  qa == ProdSelH(ks, Y, 1, 0) IN
+                 IF m % 2 = 0 THEN (16 + Y) * pa * pa + (16 - Y) * qa * qa
+                 ELSE pa * pa + (256 - Y * Y) * qa * qa
+\* exp(8/s) rounded down / exp(-8/s) as 1/x rounded down, s = 1..4: |ln|H/K|| = (s/2)|ln|A|^2| <= 4  iff  |A|^2 in [exp(-8/s), exp(8/s)]
+ExpHi == <<2980, 54, 14, 7>>
+RECURSIVE Pow2(_)
+Pow2(e) == IF e = 0 THEN 1 ELSE 2 * Pow2(e - 1)
+\* inside the stable range at the 31 frequencies cos(theta) = Y/16, Y = -15..15 (sufficient condition: integer bounds rounded inwards)
+StableH(ks, stage) == LET m == Len(ks)  den == Pow2(m + 1) * Pow2(2 * (m + 2)) IN
+   /\ m \in {4, 5} /\ stage \in 1..4
+   /\ \A Y \in -15..15 : LET n == NumA2h(ks, Y) IN n \div ExpHi[stage] < den /\ n > den \div ExpHi[stage] + 1
+
 \* ---- definition: A(z) = (P(z) + Q(z)) / 2 by polynomial multiplication (coefficients scaled by 4 per factor)
 PolyMul(a, b) == [n \in 1..(Len(a) + Len(b) - 1) |->
                     LET RECURSIVE S(_) S(i) == IF i > Len(a) THEN 0
